@@ -28,6 +28,12 @@ def gen(rng, k):
         L = R @ np.array([[1, sh], [0, 1]]) @ np.diag(rng.uniform(0.5, 2, 2))
         if np.linalg.cond(L) <= 100 and abs(np.linalg.det(L - np.eye(2))) > 0.05:
             break
+    if (k // 5) % 4 == 3:
+        # maps whose linear part has the complex eigenvalues 1 +- i w (trace 2, no real eigenvalue 1): first-order rotations,
+        # rotation with s cos(theta) = 1, traceless strain plus rotation -- the fixed point is unique and well conditioned
+        w_ = float(rng.choice([1.0, 0.5, 0.1, 0.05, -0.3]))
+        e_ = float(rng.choice([0.0, 0.0, 0.01])) if abs(w_) > 0.04 else 0.0
+        L = np.array([[1 + e_, w_], [-w_ * float(rng.choice([1.0, 0.6])), 1 - e_]])
     t = rng.uniform(-30, 30, 2)
     p = {"ref": ref, "L": L, "t": t, "noise": [0.0, 0.5][k % 2],
          "center": None if k % 3 == 0 else rng.uniform(-40, 40, 2),
